@@ -2,3 +2,4 @@
 import Vise.Basic
 import Vise.Gen.Facts
 import Vise.Codec
+import Vise.Cache
